@@ -404,3 +404,105 @@ def strip_refs(e):
     while e is not None and e.get("k") in ("Ref",) or (e is not None and e.get("k") == "Unary" and e.get("op") == "*"):
         e = e["e"]
     return e
+
+
+def single_element_test(c):
+    """If the condition `c` tests that a collection holds exactly one element (`x.len() == 1`, `1 == x.len()`,
+    `let [p] = x.as_slice()`, `let [p] = &x[..]`), the printed collection expression; otherwise None."""
+    while c.get("k") == "Paren":
+        c = c["e"]
+    if c.get("k") == "Binary" and c["op"] == "==":
+        for a, b in ((c["a"], c["b"]), (c["b"], c["a"])):
+            if a["k"] == "MethodCall" and a["m"] == "len" and b["k"] == "Lit" and str(b.get("v")) == "1":
+                return show(strip_refs(a["recv"]))
+    if c.get("k") == "Let" and c["pat"].get("k") in ("PSlice", "PRef"):
+        p = c["pat"]
+        while p.get("k") == "PRef":
+            p = p["pat"]
+        if p.get("k") == "PSlice" and len(p["elems"]) == 1 and p["elems"][0].get("k") != "PRest":
+            e = strip_refs(c["e"])
+            if e["k"] == "MethodCall" and e["m"] in ("as_slice", "as_ref", "deref", "iter") :
+                e = strip_refs(e["recv"])
+            elif e["k"] == "Index":
+                e = strip_refs(e["e"])
+            return show(e)
+    return None
+
+
+def _diverges(b):
+    """Does the block always leave the enclosing function / loop iteration (its last statement is return / break / continue / a diverging macro)?"""
+    st = body_stmts(b) if b is not None and b.get("k") == "Block" else ([{"k": "ExprStmt", "e": b}] if b is not None else [])
+    if not st:
+        return False
+    last = st[-1]
+    e = last.get("e") if last.get("k") == "ExprStmt" else last
+    if e is None:
+        return False
+    return e.get("k") in ("Return", "Break", "Continue") or is_diverging_macro(e)
+
+
+def path_conds(body, target):
+    """The conditions under which `target` (a node inside `body`) is reached, as [(condition expression, polarity)]: the
+    tests of the enclosing `if`s with the branch taken, and the negation of every earlier `if c { return }` guard of the
+    blocks on the way.  None when the node is not inside `body`."""
+    def contains(n, t):
+        return any(x is t for x in walk(n))
+
+    def go(n, acc):
+        if n is target:
+            return acc
+        k = n.get("k")
+        if k == "Block":
+            cur = list(acc)
+            for st in n["stmts"]:
+                if contains(st, target):
+                    return go(st, cur)
+                e = st.get("e") if st.get("k") == "ExprStmt" else st
+                if isinstance(e, dict) and e.get("k") == "If":
+                    if _diverges(e["t"]) and (e.get("e") is None or not _diverges(e["e"])):
+                        cur.append((e["c"], False))
+                    elif e.get("e") is not None and _diverges(e["e"]) and not _diverges(e["t"]):
+                        cur.append((e["c"], True))
+            return None
+        if k == "If":
+            if contains(n["c"], target):
+                return acc
+            if contains(n["t"], target):
+                return go(n["t"], acc + [(n["c"], True)])
+            if n.get("e") is not None and contains(n["e"], target):
+                return go(n["e"], acc + [(n["c"], False)])
+            return None
+        for c in children(n):
+            if isinstance(c, dict) and contains(c, target):
+                return go(c, acc)
+            if isinstance(c, list):
+                for y in c:
+                    if isinstance(y, dict) and contains(y, target):
+                        return go(y, acc)
+        return None
+
+    return go(body, [])
+
+
+def cond_atoms(conds):
+    """Flatten [(expr, polarity)] into atomic [(expr, polarity)]: `a && b` holding gives both, `a || b` failing gives both
+    failing, `!a` flips."""
+    out = []
+
+    def add(e, pol):
+        while e.get("k") == "Paren":
+            e = e["e"]
+        if e.get("k") == "Unary" and e.get("op") == "!":
+            add(e["e"], not pol)
+        elif e.get("k") == "Binary" and e["op"] == "&&" and pol:
+            add(e["a"], True)
+            add(e["b"], True)
+        elif e.get("k") == "Binary" and e["op"] == "||" and not pol:
+            add(e["a"], False)
+            add(e["b"], False)
+        else:
+            out.append((e, pol))
+
+    for e, pol in conds:
+        add(e, pol)
+    return out
